@@ -19,7 +19,8 @@ REQUIRED_BUCKETS = (['shape:' + s for s in SHAPES] + ['api:configurable', 'api:r
                      'sig:kwonly', 'sig:varargs', 'sig:varkw', 'sig:extra-via-varkw', 'layers:2+', 'layers:3+',
                      'nonprefix-binding-present', 'string-prefix-trap', 'via:scoped-get', 'via:scope',
                      'expect:TypeError', 'expect:ok', 'entry:list', 'entry:none', 'entry:slash', 'history:round2+', 'history:rebind-existing',
-                     'history:bind-new-after-call', 'history:scoped-call-left-by-BaseException'])
+                     'history:bind-new-after-call', 'history:scoped-call-left-by-BaseException', 'call:caller-value-with-hostile-eq',
+                     'history:consumer-mutated-bound-value'])
 ORACLE_COUNTERS = ['oracle_evals', 'calls_compared']
 ALPHA = ['a', 'b', 'c']
 
@@ -104,6 +105,45 @@ class Interrupt(BaseException):
   pass
 
 
+class CallerValue:
+  """A value passed by the caller: must reach the function as this very object."""
+
+  def __init__(self, tag):
+    self.tag = tag
+
+  def __repr__(self):
+    return '<%s %r>' % (type(self).__name__, self.tag)
+
+
+class AlwaysEqual(CallerValue):
+  """Like unittest.mock.ANY: compares equal to everything (also to gin.REQUIRED)."""
+
+  def __eq__(self, other):
+    return True
+
+  def __ne__(self, other):
+    return False
+
+  __hash__ = object.__hash__
+
+
+class EqNotBool(CallerValue):
+  """Like an array: == returns something whose truth value is an error."""
+
+  class _Amb:
+    def __bool__(self):
+      raise ValueError('The truth value of this comparison is ambiguous')
+
+  def __eq__(self, other):
+    return EqNotBool._Amb()
+
+  __hash__ = object.__hash__
+
+
+def caller_value(tag, k):
+  return [CallerValue, CallerValue, CallerValue, AlwaysEqual, EqNotBool][k % 5](tag)
+
+
 def setup(ctx):
   import gin
 
@@ -141,7 +181,7 @@ def run_case(ctx, case):
   ctx.bucket('api:' + ('register' if spec['shape'] == 'method' else spec['api']))
   model = {}
   for scope, param, api in case['bindings']:
-    value = 'B|%s|%s' % (scope, param)
+    value = ['B|%s|%s' % (scope, param)]   # mutable: what the function receives is a fresh copy every call
     apply_binding(gin, p, scope, param, api, value)
     model.setdefault((scope, p.selector), {})[param] = value
   call_round(ctx, case, p, model, 0)
@@ -151,7 +191,7 @@ def run_case(ctx, case):
       ctx.bucket('history:scoped-call-left-by-BaseException')
       prelude(gin)
     for scope, param in rnd['rebinds']:
-      value = 'R%d|%s|%s' % (ri, scope, param)
+      value = ['R%d|%s|%s' % (ri, scope, param)]
       if param in model.get((scope, p.selector), {}):
         ctx.bucket('history:rebind-existing')
       else:
@@ -189,8 +229,10 @@ def call_round(ctx, case, p, model, round_no):
 
     pos = probes.positional_names(spec)
     nP, Kn = case['nP'], case['K']
-    P = [['caller-pos', i] for i in range(nP)]
-    K = {k: ['caller-kw', k] for k in Kn}
+    P = [caller_value(('pos', i), ctx.case_no + i) for i in range(nP)]
+    K = {k: caller_value(('kw', k), ctx.case_no + j + 2) for j, k in enumerate(Kn)}
+    if any(isinstance(v, (AlwaysEqual, EqNotBool)) for v in P + list(K.values())):
+      ctx.bucket('call:caller-value-with-hostile-eq')
     inj = models.injected(applicable, pos, nP, K)
     try:
       expect = p.twin(*P, **{**inj, **K})
@@ -276,13 +318,24 @@ def call_round(ctx, case, p, model, round_no):
     if name == '*':
       ok = len(e) == len(g) and all(a is b for a, b in zip(e, g))
     elif name == '**':
-      ok = set(e) == set(g) and all((e[k] is g[k]) if isinstance(e[k], list) else teq(e[k], g[k]) for k in e)
-    elif isinstance(e, list):  # caller value: identity
-      ok = e is g
+      ok = set(e) == set(g) and all(same_value(e[k], g[k]) for k in e)
     else:
-      ok = teq(e, g)
+      ok = same_value(e, g)
   ctx.check(ok, 'reception-differs-from-model',
             'active=%r received %r, model expects %r (applicable %r, nP=%d, K=%r)' % (active, got, expect, applicable, nP, Kn))
+  # the probe now behaves like a function that modifies what Gin gave it: later rounds must still see the bound values
+  for name, g in list(got.items()) + list((got.get('**') or {}).items()):
+    if type(g) is list and name not in ('*',):
+      g.append('MUTATED-BY-CONSUMER')
+      ctx.bucket('history:consumer-mutated-bound-value')
+
+
+def same_value(e, g):
+  if isinstance(e, CallerValue):
+    return e is g                      # caller values: the very object
+  if type(e) is list:
+    return teq(e, g) and e is not g    # bound (mutable) values: equal, but never the object held by the configuration
+  return teq(e, g)
 
 
 LEVEL_TEXT = ('Runtime monitor with a reference model: every generated (signature x binding set x scope stack x call shape) is '
